@@ -31,7 +31,7 @@ def rule_AREA(ctx):
         raise AnalysisBroken('AREA: unexpected parameters %s' % names)
     ncase = 0
     npaths = 0
-    for cr in (-1, 0, 1, 2, 3):
+    for cr in (tuple(range(-4, 7)) if getattr(ctx, 'tier', 'quick') == 'thorough' else (-1, 0, 1, 2, 3)):
         for rev in (0, 1):
             for sg in (0, 1):
                 ncase += 1
